@@ -11,4 +11,4 @@ KEYS = ['c01']
 
 
 def units(tier, seed):
-    return SP.all_units(PROPERTY, KEYS, tier) + SP.rowwise_units(KEYS, tier)
+    return SP.all_units(PROPERTY, KEYS, tier) + SP.rowwise_units(KEYS, tier) + SP.limits_units(tier)
